@@ -57,6 +57,7 @@ type Term struct {
 	// constant payload (valid when IsConst)
 	IsConst bool
 	CBits   uint64 // BV value (w<=64), Bool (0/1), or FP bits
+	FP      bool   // contains floating-point operators (decided by cvc5 directly)
 }
 
 var (
@@ -138,7 +139,13 @@ func mkApp(s Sort, op string, args ...*Term) *Term {
 		fmt.Fprintf(&sb, " %d", a.ID)
 	}
 	return intern(sb.String(), func() *Term {
-		return &Term{Sort: s, Op: op, Args: append([]*Term(nil), args...)}
+		fp := s.K == sFP || strings.HasPrefix(op, "fp.") || strings.Contains(op, "to_fp")
+		for _, a := range args {
+			if a.FP || a.Sort.K == sFP {
+				fp = true
+			}
+		}
+		return &Term{Sort: s, Op: op, Args: append([]*Term(nil), args...), FP: fp}
 	})
 }
 
